@@ -52,6 +52,11 @@ def run(ctx, cases, oracle=None, shard=200, compare=True):
             else:
                 dist["line:%s" % po[0]] += 1
         dist["apdus:%s" % min(len([e for e in obs["trace"] if e[0] == "A"]), 50)] += 1
+        if obs.get("runaway"):
+            res["violations"].append({"key": "runaway", "what": "a request did not finish within %d device "
+                                      "exchanges (cut off by the harness)" % len(obs["answers"]),
+                                      "case": describe(case, obs)})
+            continue
         if oracle is not None:
             v = oracle(case, obs)
             if v:
